@@ -236,10 +236,19 @@ impl<Effect, Event> Command<Effect, Event> {
         //
         // Note that there is an exception: the task may have used the waker and dropped it,
         // making it ready, rather than abandoned.
-        let task_is_ready = arc_waker.woken.load(Ordering::Acquire);
+        //
+        // The order of the two reads matters when requests are resolved from another thread:
+        // a waker sets `woken` *before* its clone is dropped, so the clone count has to be read
+        // first. Once no clone is left, every wake that will ever happen has already set the flag
+        // (the fence pairs with the release decrement of the dropped clone). Reading the flag
+        // first would let a wake slip in between the two reads and evict a task which has just
+        // been woken, losing the response.
+        let no_other_wakers = Arc::strong_count(&arc_waker) < 2;
+        std::sync::atomic::fence(Ordering::Acquire);
         #[cfg(crux_verif)]
         crate::verif::schedule_point("run_task:between_reads");
-        if result == TaskState::Suspended && !task_is_ready && Arc::strong_count(&arc_waker) < 2 {
+        let task_is_ready = arc_waker.woken.load(Ordering::Acquire);
+        if result == TaskState::Suspended && !task_is_ready && no_other_wakers {
             return TaskState::Cancelled;
         }
 
